@@ -508,3 +508,21 @@ def fold_body(prog: Program, fi: FuncInfo, env: dict, stop_at: Optional[ast.AST]
 
     run(fi.node.body)
     return env
+
+
+def reached_under(cond_list: Sequence[Cond], atomize, premise: dict) -> bool:
+    """Is the guarded statement executed whenever the atoms in `premise` have the
+    given values - for every value of all other atoms?  (Exhaustive.)"""
+    import itertools
+    atoms: set = set()
+    for c in cond_list:
+        _collect_atoms(c.test, atomize, atoms)
+    free = sorted((a for a in atoms if a not in premise), key=str)
+    if len(free) > 12:
+        raise AnalysisError("too many atoms in guard formula")
+    for vals in itertools.product([False, True], repeat=len(free)):
+        env = _Env(dict(zip(free, vals)))
+        env.update(premise)
+        if not all(_eval_bool(c.test, atomize, env) == bool(c.polarity) for c in cond_list):
+            return False
+    return True
